@@ -12,7 +12,7 @@ from sa.report import Ctx
 
 from .common import generic_sweeps
 
-from .graph_common import edge_wrapper_adjacency, neighbor_loops, node_derived_sets, node_universe_filtered
+from .graph_common import edge_wrapper_adjacency, edge_wrapper_returns_generic, neighbor_loops, node_derived_sets, node_universe_filtered
 from .sat_common import _enclosing_block
 
 EXPLANATION = (
@@ -76,6 +76,7 @@ def run(ctx: Ctx):
     # the edge-list variants hand the generic routines the graph they were given
     for wname in ("strongly_connected_components_edges", "topological_sort_edges"):
         ctx.step(edge_wrapper_adjacency, "C14-O1", ctx.func("scc", wname), wname)
+        ctx.step(edge_wrapper_returns_generic, "C14-O1", ctx.func("scc", wname), wname, wname[: -len("_edges")])
 
     # O2 Tarjan
     sc = ctx.func("scc", "strongly_connected_components.strongconnect")
@@ -225,7 +226,13 @@ def _v_edges_wrappers_drop_self_loops(tree):
         M.replace_stmt(g, lambda st: isinstance(st, ast.Expr) and M.src_is(st.value, "adj[u].append(v)"), lambda st: M.stmts("if u != v:\n    adj[u].append(v)"))
 
 
+def _v_toposort_edges_sorted_fast_path(tree):
+    g = M.find_func(tree, "topological_sort_edges")
+    M.insert(g, "adj", "if not any(v < u for u, v in edges):\n    return Result(list(range(n_nodes)), n_nodes, n_nodes, n_nodes)")
+
+
 VARIANTS = [
+    M.Variant("topological_sort_edges returns 0..n-1 when no edge points backwards - a self loop does not (seed C14-T)", SC, _v_toposort_edges_sorted_fast_path, "C14-O1"),
     M.Variant("edge-list wrappers drop self loops while building the successor lists (seed C14-O)", SC, _v_edges_wrappers_drop_self_loops, "C14-O1"),
     M.Variant("SCC follows neighbours outside the node set (original defect)", SC, _v_no_filter, "C14-O1"),
     M.Variant("topological_sort counts edges to unknown nodes", SC, _v_topo_no_filter, "C14-O1"),
